@@ -149,15 +149,30 @@ func (lv *LeafVariants) remainsToExist() bool {
 		return false
 	}
 
+	// the value the device runs does not outlive the intents that put it there: when intents hold the leaf and all
+	// of their values are being removed from the device, the running value goes with them.
+	intentOwned, intentRemains, runningRemains, defaultRemains := false, false, false, false
 	// go through all variants
 	for _, l := range lv.les {
-		// if an entry exists that does not have the delete flag set,
-		// then a remaining LeafVariant exists.
-		if !l.GetDeleteFlag() {
-			return true
+		switch l.Owner() {
+		case RunningIntentName:
+			runningRemains = runningRemains || !l.GetDeleteFlag()
+		case DefaultsIntentName:
+			defaultRemains = defaultRemains || !l.GetDeleteFlag()
+		default:
+			intentOwned = true
+			// an entry that does not have the delete flag set, or that is only removed
+			// from the intended store, remains
+			if !l.GetDeleteFlag() || l.GetDeleteOnlyIntendedFlag() {
+				intentRemains = true
+			}
 		}
 	}
-	return false
+	if intentOwned && !intentRemains {
+		// what is left is the schema default, if there is one
+		return defaultRemains
+	}
+	return intentRemains || runningRemains || defaultRemains
 }
 
 func (lv *LeafVariants) GetHighestPrecedenceValue() int32 {
